@@ -48,6 +48,10 @@ def drive(sh, prop, cfg, klass, requests=('hit', 'hit2', '404', '405'), shape_on
         sh.hit('requests-on-accepted', info.get('exchanges', 0))
         if cfg.get('build_via_add'):
             sh.hit('accepted-with:built-via-add')
+        if cfg['route'].get('render_via_factory'):
+            sh.hit('accepted-with:render-from-factory')
+        if cfg.get('nonunique_pair'):
+            sh.hit('nonunique-type-on-two-levels')
         if cfg['route'].get('siblings'):
             sh.hit('sibling-routes-with-own-middlewares')
         if cfg['route'].get('decoys'):
